@@ -15,7 +15,7 @@ def sh(cmd, **kw):
     return subprocess.run(cmd, shell=True, stdout=subprocess.PIPE, stderr=subprocess.STDOUT, text=True, **kw)
 
 def make_slot(k):
-    base = "/tmp/sw%d" % k
+    base = "/tmp/sw%d_%d" % (os.getpid(), k)
     sh("git -C /repo worktree remove --force %s/repo" % base)
     shutil.rmtree(base, ignore_errors=True)
     os.makedirs(base)
